@@ -91,6 +91,18 @@ class C04(Prop):
             if not any(';c:' in x for x in a):
                 a.append(action(rng.choice('cs'), 'c:-'))
             out.append(pr_case('m%d' % k, a, wbs=rng.choice([0, 0, 1, 16]), max_=rng.choice([32, 40, 64, 200]), rbs=rng.choice([0, 64, 4096]), seed=rng.randint(0, 2**32 - 1), tail=8)); k += 1
+        # simultaneous close: one side's own Close is still parked (its buffer is exactly full behind a blocked transport) when it
+        # reads the peer's Close
+        for X in 'cs':
+            Y = 's' if X == 'c' else 'c'
+            fsz = (6 if X == 'c' else 2) + 20
+            for blockn in (3, 5, 8):
+                for yfirst in (True, False):
+                    a = [action(X, 'wb:' + '33' * 20, None, blockn), action(X, 'c:-', None, blockn)]
+                    a += [action(Y, 'c:-'), action(Y, 'f')] if yfirst else [action(Y, 'c:1000:6279')]
+                    a += [action(X, 'r', [1000], blockn), action(X, 'r', [1000], 0), action(X, 'f')]
+                    for mx in (fsz, fsz + 1, fsz + 3):
+                        out.append(pr_case('sc%d' % k, a, wbs=0, max_=mx, rbs=4096, seed=7 + k, tail=8)); k += 1
         # the echoed Close (long reason) fits the bound on its own but not beside data stuck behind a blocked transport
         R100 = '61' * 100
         for i in range(60 if quick else 2000):
